@@ -51,6 +51,9 @@ func c17Lengths(thorough bool) []int {
 			}
 		}
 	}
+	// beyond any "reasonable" fixed buffer somebody might configure
+	set[1<<20+1] = true
+	set[1<<21+1] = true
 	var out []int
 	for n := range set {
 		out = append(out, n)
@@ -221,6 +224,9 @@ func C17(r *core.Run) {
 			for _, cmd := range c17Cmds {
 				for _, pos := range []string{"first", "middle", "last"} {
 					for _, fnl := range []bool{true, false} {
+						if ln > 1<<18 && (pos != "middle" || !fnl || cmd == "generate cmdline") {
+							continue
+						}
 						if idx++; idx%n != shard {
 							continue
 						}
